@@ -11,7 +11,7 @@ import re
 
 from vlib import build, common
 
-SUM_KEYS = ("tables", "sections", "jit_tables", "arch_x64", "arch_x86", "arch_a64", "names_refused", "aligns_refused",
+SUM_KEYS = ("tables", "recycled_reinit", "recycled_soft_reset", "recycled_hard_reset", "sections", "jit_tables", "arch_x64", "arch_x86", "arch_a64", "names_refused", "aligns_refused",
             "names_checked", "names_not_terminated", "flatten_ok", "flatten_refused_overflow",
             "overflow_code_size_not_max", "ref_layout_equal", "ref_layout_differs", "est0_equal_ref", "est0_differs_ref",
             "est0_below_final_code_size", "empty_section_unaligned", "uncovered_gap_tables", "with_addrtab",
@@ -139,6 +139,7 @@ def run(tier, args):
         "call_sites_through_address_table": tot["call_sites_tab"],
         "address_table_slots_compared": tot["addrtab_slots_checked"],
         "jit_runtime_add_tables": tot["jit_tables"],
+        "tables_built_in_a_recycled_holder": {"after_reinit": tot["recycled_reinit"], "after_soft_reset": tot["recycled_soft_reset"], "after_hard_reset": tot["recycled_hard_reset"]},
         "flattened_copy_probes_by_size_class_and_flags": flat,
         "section_copy_probes_by_size_class_and_flags": sect,
         "copy_flag_combinations_seen": {"copy_flattened_data": flags_seen_flat, "copy_section_data": flags_seen_sect},
